@@ -1,7 +1,8 @@
 SPECIFICATION TraceSpec
 CONSTANTS
-  Files <- TraceFiles
+  FilesSrc <- TraceFiles
   MConfs = {}
+  UseRegister = TRUE
   Refreshers = {"r1", "r2"}
   InvalidCountries = {"A1", "A2", "O1", "ZZZ"}
   InvalidContinents = {"ZZ"}
